@@ -121,16 +121,27 @@ def run_thorough(prop, module, ctx, repo):
                     seeds.append({"seed": d, "status": r["status"], "rules": sorted({l.strip().split()[1] for l in r["output"] if l.strip().startswith("rule ")})})
             # (c) negative self-test: the behaviour-preserving refactorings written for this property must NOT be reported
             refs = []
-            rd = os.path.join(VERIF, "refactors", prop)
-            for f in sorted(os.listdir(rd)) if os.path.isdir(rd) else []:
-                if f.endswith(".diff"):
-                    r = selftest.run_patch(prop, os.path.join(rd, f))
-                    refs.append({"refactor": "%s/%s" % (prop, f), "status": "SILENT" if r["status"] == "MISSED" else ("FALSE-ALARM" if r["status"] == "CAUGHT" else r["status"]),
-                                 "rules": sorted({l.strip().split()[1] for l in r["output"] if l.strip().startswith("rule ")})})
+            try:
+                limits = json.load(open(os.path.join(VERIF, "refactors", "known_limits.json")))
+            except Exception:
+                limits = {}
+            for sub in (prop, prop + "-r2"):
+                rd = os.path.join(VERIF, "refactors", sub)
+                for f in sorted(os.listdir(rd)) if os.path.isdir(rd) else []:
+                    if f.endswith(".diff"):
+                        r = selftest.run_patch(prop, os.path.join(rd, f))
+                        rid_ = "%s/%s" % (sub, f)
+                        st_ = "SILENT" if r["status"] == "MISSED" else ("FALSE-ALARM" if r["status"] == "CAUGHT" else r["status"])
+                        if st_ == "FALSE-ALARM" and rid_ in limits:
+                            st_ = "KNOWN-LIMIT"
+                        refs.append({"refactor": rid_, "status": st_, "rules": sorted({l.strip().split()[1] for l in r["output"] if l.strip().startswith("rule ")}),
+                                     "note": limits.get(rid_, "")})
         finally:
             os.environ.pop("VERIF_NESTED", None)
         for r in refs:
-            if r["status"] != "SILENT":
+            if r["status"] == "KNOWN-LIMIT":
+                print("SELFTEST-KNOWN-LIMIT property=%s refactor=%s (%s): %s" % (prop, r["refactor"], r["rules"], r["note"]))
+            elif r["status"] != "SILENT":
                 print("SELFTEST-FALSE-ALARM property=%s refactor=%s (%s %s)" % (prop, r["refactor"], r["status"], r["rules"]))
         for r in res:
             if r["status"] not in ("CAUGHT", "CAUGHT-OTHER-RULE"):
